@@ -615,6 +615,7 @@ func Run(cfg hx.Config) error {
 		opDig(r, randBytes(rnd, "sha2561:0af", rnd.Intn(80)))
 		opVerUn(r, randBytes(rnd, "k:.-+0123456789", rnd.Intn(40)))
 	}
+	runSQL(r, cfg, rnd)
 	// the zero Digest (recorded finding): it prints as "" which its own decoder rejects
 	{
 		var z claircore.Digest
